@@ -195,6 +195,10 @@ class PeriodicFinder:
         search_mask = (distance_mask) & (identical_elem_mask)
         combined_mask = np.array(search_mask)
         combined_mask[seed_index] = False  # Ignore self
+        # A span shorter than the position tolerance cannot be told apart from
+        # a zero vector (e.g. two atoms on top of each other): it can never
+        # act as a cell basis and would produce a zero-volume prototype cell.
+        combined_mask[seed_span_lengths < self.pos_tol] = False
         bases = seed_spans[combined_mask]
         neighbour_factors = self.disp_factors[seed_index, distance_mask, :]
 
